@@ -184,7 +184,7 @@ TxChunks(e, b, cs, k) ==
     IF c.t # 0 THEN TxChunks(e, b, cs, k + 1)
     ELSE IF c.tsn = e.nextT
       THEN \* first transmission with the expected TSN
-           LET e2 == [e EXCEPT !.sq = @ \cup {[tsn |-> c.tsn, len |-> c.ulen, acked |-> FALSE]},
+           LET e2 == [e EXCEPT !.sq = @ \cup {[tsn |-> c.tsn, len |-> c.ulen, ch |-> c.ch, acked |-> FALSE]},
                                !.nextT = @ + 1, !.since = @ + c.ulen]
                b2 == Chk(b, ~e.hasRwnd \/ e2.since <= e.rwnd + MTU, "C13", "NewDataWithinWindow",
                          [tsn |-> c.tsn, since |-> e2.since, rwnd |-> e.rwnd])
@@ -194,7 +194,7 @@ TxChunks(e, b, cs, k) ==
            LET live == \E x \in e.sq : x.tsn = c.tsn /\ ~x.acked
            IN TxChunks(e, Chk(b, live, "C13", "NoRtxAfterAck", [tsn |-> c.tsn]), cs, k + 1)
     ELSE \* a TSN was skipped
-           LET e2 == [e EXCEPT !.sq = @ \cup {[tsn |-> c.tsn, len |-> c.ulen, acked |-> FALSE]},
+           LET e2 == [e EXCEPT !.sq = @ \cup {[tsn |-> c.tsn, len |-> c.ulen, ch |-> c.ch, acked |-> FALSE]},
                                !.nextT = c.tsn + 1, !.since = @ + c.ulen]
            IN TxChunks(e2, Chk(b, FALSE, "C13", "ConsecutiveTsn", [tsn |-> c.tsn, expected |-> e.nextT]), cs, k + 1)
 
@@ -250,6 +250,34 @@ DeliverHook ==
      IN /\ ext' = ChkX(ext, ok, "DeliverMatchesModel", [side |-> s, ch |-> Ev.ch, len |-> Ev.len])
         /\ ep' = [ep EXCEPT ![s].expDel = IF ok THEN Tail(q) ELSE <<>>]
   /\ UNCHANGED <<sc, chans, subidx, app, quiet, bad>> /\ Adv
+
+\* what one SACK did to the implementation's retransmission queue (hook sackfx, logged right after the
+\* rx event of that SACK, which has already taken the monitor's queue through ApplySack): every chunk it
+\* removed must be gone from the monitor's queue too (at or below the cumulative TSN of a processed SACK),
+\* every chunk it marked gap-acked must be marked there too (inside a gap block of a processed SACK taken
+\* relative to that SACK's own cumulative TSN).  Exact, per TSN, with or without partially reliable channels.
+InSet(t, q) == \E k \in 1..Len(q) : q[k] = t
+SackFx ==
+  /\ Ev.e = "sackfx"
+  /\ LET s == Ev.s  e == ep[s]
+         badRem == {x \in e.sq : InSet(x.tsn, Ev.removed)}
+         badAck == {x \in e.sq : InSet(x.tsn, Ev.acked) /\ ~x.acked}
+     IN /\ bad' = Chk(bad, badRem = {} /\ badAck = {}, "C01", "AckedOnlyIfCovered",
+                      [side |-> s, removed_uncovered |-> {x.tsn : x \in badRem},
+                       gapacked_uncovered |-> {x.tsn : x \in badAck}])
+        /\ ep' = [ep EXCEPT ![s].sq = {IF x \in badAck THEN [x EXCEPT !.acked = TRUE] ELSE x : x \in (e.sq \ badRem)}]
+  /\ UNCHANGED <<sc, chans, subidx, app, quiet, ext>> /\ Adv
+
+\* chunks given up by abandonment (hook advfx): only chunks of partially reliable channels (or chunks the
+\* peer has already acknowledged) may leave the queue this way
+AdvFx ==
+  /\ Ev.e = "advfx"
+  /\ LET s == Ev.s  e == ep[s]
+         gone == {x \in e.sq : InSet(x.tsn, Ev.removed)}
+         wrong == {x \in gone : ~x.acked /\ (x.ch = 0 \/ chans[x.ch].rel)}
+     IN /\ bad' = Chk(bad, wrong = {}, "C01", "AbandonOnlyPartiallyReliable", [side |-> s, tsns |-> {x.tsn : x \in wrong}])
+        /\ ep' = [ep EXCEPT ![s].sq = e.sq \ gone]
+  /\ UNCHANGED <<sc, chans, subidx, app, quiet, ext>> /\ Adv
 
 T3 ==
   /\ Ev.e = "timer"
@@ -342,13 +370,14 @@ End ==
   /\ UNCHANGED <<sc, chans, subidx, ep, app, quiet, ext>> /\ Adv
 
 Other ==
-  /\ Ev.e \notin {"reset", "submit", "recv", "newchan", "tx", "rx", "deliver", "timer", "snap", "net", "mark", "end"}
+  /\ Ev.e \notin {"reset", "submit", "recv", "newchan", "tx", "rx", "deliver", "timer", "snap", "net", "mark", "end",
+                 "sackfx", "advfx"}
   /\ UNCHANGED <<sc, chans, subidx, ep, app, quiet, bad, ext>> /\ Adv
 
 Next ==
   /\ l <= N
   /\ \/ Reset \/ Submit \/ RecvMsg \/ RecvOpen \/ RecvClose \/ NewChan \/ Tx \/ Rx \/ DeliverHook
-     \/ T3 \/ Snap \/ Net \/ Mark \/ End \/ Other
+     \/ SackFx \/ AdvFx \/ T3 \/ Snap \/ Net \/ Mark \/ End \/ Other
 
 Spec == Init /\ [][Next]_vars
 
